@@ -236,6 +236,7 @@ def run_input(ctx, data, rng, full):
         go("nonseekable:%s" % lab, lambda: Short(b, [10 ** 9]), transport_encoding=lab)
         s = [rng.choice([1, 1, 2, 3, 5, 8]) for _ in range(rng.randint(2, 8))]
         go("nonseekable-short:%s:%s" % (lab, "-".join(map(str, s))), lambda: Short(b, s), transport_encoding=lab)
+        go("nonseekable-chunk2:%s" % lab, lambda: Short(b, [10 ** 9]), chunk=2, transport_encoding=lab)
         go("bytes-chunk3:%s" % lab, lambda: b, chunk=3, transport_encoding=lab)
         go("bytes-chunk1:%s" % lab, lambda: b, chunk=1, transport_encoding=lab)
     for lab, bom in (("utf-8", b"\xef\xbb\xbf"), ("utf-16le", b"\xff\xfe"), ("utf-16be", b"\xfe\xff")):
@@ -246,6 +247,8 @@ def run_input(ctx, data, rng, full):
         go("bom:%s" % lab, lambda: b)
         go("bom-BytesIO-chunk2:%s" % lab, lambda: io.BytesIO(b), chunk=2)
         go("bom-nonseekable:%s" % lab, lambda: Short(b, [10 ** 9]))
+        s = [rng.choice([1, 1, 2, 3, 5]) for _ in range(rng.randint(1, 4))]
+        go("bom-nonseekable-short:%s:%s" % (lab, "-".join(map(str, s))), lambda: Short(b, s))
 
 
 CONSTRUCTS = ["a\r\nb", "a\rb", "\r\r\n\n", "a\r", "x&amp;y", "x&notit;y", "x&#x1F600;y", "x&#65y", "<!--c-->", "<!---->x",
@@ -313,19 +316,21 @@ def replay(ctx, case):
             src = Short(data, [int(x) for x in spec[4:].split("-")])
     elif kind[0] == "chunk":
         src, chunk = data, int(kind[1])
-    elif kind[0] in ("bytes", "BytesIO", "nonseekable", "nonseekable-short", "bytes-chunk3", "bytes-chunk1"):
+    elif kind[0] in ("bytes", "BytesIO", "nonseekable", "nonseekable-short", "bytes-chunk3", "bytes-chunk1", "nonseekable-chunk2"):
         lab = kind[1]
         b = webencodings.lookup(lab).codec_info.encode(data)[0]
         kw = {"transport_encoding": lab}
-        src = {"bytes": b, "BytesIO": io.BytesIO(b), "nonseekable": Short(b, [10 ** 9]), "bytes-chunk3": b, "bytes-chunk1": b}.get(kind[0])
+        src = {"bytes": b, "BytesIO": io.BytesIO(b), "nonseekable": Short(b, [10 ** 9]), "bytes-chunk3": b, "bytes-chunk1": b,
+               "nonseekable-chunk2": Short(b, [10 ** 9])}.get(kind[0])
         if kind[0] == "nonseekable-short":
             src = Short(b, [int(x) for x in kind[2].split("-")])
-        chunk = {"bytes-chunk3": 3, "bytes-chunk1": 1}.get(kind[0])
+        chunk = {"bytes-chunk3": 3, "bytes-chunk1": 1, "nonseekable-chunk2": 2}.get(kind[0])
     elif kind[0].startswith("bom"):
         lab = kind[1]
         bom = {"utf-8": b"\xef\xbb\xbf", "utf-16le": b"\xff\xfe", "utf-16be": b"\xfe\xff"}[lab]
         b = bom + data.encode(lab)
-        src = {"bom": b, "bom-BytesIO-chunk2": io.BytesIO(b), "bom-nonseekable": Short(b, [10 ** 9])}[kind[0]]
+        src = {"bom": b, "bom-BytesIO-chunk2": io.BytesIO(b), "bom-nonseekable": Short(b, [10 ** 9]),
+               "bom-nonseekable-short": Short(b, [int(x) for x in kind[2].split("-")] if len(kind) > 2 else [1])}[kind[0]]
         chunk = 2 if kind[0] == "bom-BytesIO-chunk2" else None
     flat, errs, log = parse_variant(src, chunk, **kw)
     judge_variant(ctx, {"input": data}, (bflat, berrs), v, flat, errs, log, data)
